@@ -118,10 +118,33 @@ pub fn parse_policy_document(data: &str) -> Result<ast::Policy, ParseError> {
 /// Extract the policy chunks from a Markdown policy document. Returns the chunks plus the
 /// policy version.
 fn extract_policy(data: &str) -> Result<(Vec<PolicyChunk>, Version), ParseError> {
+    if has_unterminated_front_matter(data) {
+        // The Markdown parser does not cope with a front matter block that is never closed.
+        return Err(ParseError::new(
+            ParseErrorKind::FrontMatter,
+            String::from("Front matter is not terminated"),
+            None,
+        ));
+    }
     let mut parseoptions = ParseOptions::gfm();
     parseoptions.constructs.frontmatter = true;
     let tree = to_mdast(data, &parseoptions)
         .map_err(|s| ParseError::new(ParseErrorKind::Unknown, s.to_string(), None))?;
     let (chunks, version) = extract_policy_from_markdown(&tree)?;
     Ok((chunks, version))
+}
+
+/// Reports whether the document opens a front matter block (`---` or `+++` on the first line)
+/// that no later line closes.
+fn has_unterminated_front_matter(data: &str) -> bool {
+    fn fence(line: &str) -> Option<&str> {
+        let line = line.trim_end_matches([' ', '\t']);
+        matches!(line, "---" | "+++").then_some(line)
+    }
+    // Markdown line endings are `\n`, `\r\n` and `\r`.
+    let mut lines = data.split(['\n', '\r']);
+    match lines.next().and_then(fence) {
+        Some(open) => !lines.any(|line| fence(line) == Some(open)),
+        None => false,
+    }
 }
